@@ -307,8 +307,9 @@ def check(ctx):
     ctx.oblige("R-C07.5", "array / function suffix after a pointer parenthesises the declarator", ok)
     if not ok:
         viol("R-C07.5", "ptr-suffix-parens", "_generate_type must wrap the declarator in parentheses exactly when an array or function modifier follows a pointer modifier (pointer-to-array / pointer-to-function)", "CGenerator._generate_type", gt)
-    rec = [c for c in ast.walk(gt) if isinstance(c, ast.Call) and getattr(c.func, "attr", "") == "_generate_type" and len(c.args) >= 2]
-    ok = any(S.unparse(c.args[1]) == "modifiers + [n]" and S.unparse(c.args[0]) == "n.type" for c in rec)
+    rec = [S.positional_args(c, gt) for c in ast.walk(gt) if isinstance(c, ast.Call) and getattr(c.func, "attr", "") == "_generate_type"]
+    pn, pm = gt.args.args[1].arg, gt.args.args[2].arg
+    ok = any(a is not None and len(a) >= 2 and a[0] is not None and a[1] is not None and S.unparse(a[1]) == f"{pm} + [{pn}]" and S.unparse(a[0]) == f"{pn}.type" for a in rec)
     ctx.oblige("R-C07.5", "modifiers are collected outermost first on the way down to the TypeDecl", ok)
     if not ok:
         viol("R-C07.5", "modifier-order", "_generate_type must recurse with (n.type, modifiers + [n]): modifiers are applied innermost first when the TypeDecl is reached", "CGenerator._generate_type", gt)
